@@ -10,6 +10,7 @@ import (
 	"regexp"
 	"sort"
 	"strings"
+	"sync"
 
 	"mosn.io/api"
 	v2 "mosn.io/mosn/pkg/config/v2"
@@ -361,8 +362,45 @@ func sortedKeys(m map[string]string) []string {
 	return ks
 }
 
+type panicT struct {
+	What    string      `json:"panic"`
+	Request interface{} `json:"request"`
+}
+
+// panics raised by the real code under test (a lookup or a route action must never panic)
+var panics []panicT
+var panicsMu sync.Mutex
+
+func addPanic(p panicT) {
+	panicsMu.Lock()
+	panics = append(panics, p)
+	panicsMu.Unlock()
+}
+
+func reportPanics(run *Run, prop string, ctxInfo interface{}) {
+	for _, p := range panics {
+		run.Fail(prop+":panic", "the router panicked: "+p.What, map[string]interface{}{"panic": p, "context": ctxInfo})
+	}
+	panics = nil
+}
+
+func guarded(what string, req interface{}, f func()) {
+	defer func() {
+		if p := recover(); p != nil {
+			addPanic(panicT{What: what + ": " + fmt.Sprint(p), Request: req})
+		}
+	}()
+	f()
+}
+
 // lookup runs the real MatchRoute / MatchAllRoutes; "" / nil = no route
 func lookup(rs types.Routers, q reqT) (one string, found bool, all []string) {
+	defer func() {
+		if p := recover(); p != nil {
+			addPanic(panicT{What: fmt.Sprint(p), Request: q})
+			one, found, all = "<panic>", true, nil
+		}
+	}()
 	ctx, h := q.ctx()
 	if r := rs.MatchRoute(ctx, h); r != nil {
 		one, found = r.RouteRule().ClusterName(ctx), true
